@@ -169,7 +169,7 @@ def _explicit_env_compile(text):
     return core.outcome(lambda: _WT_ENV.compile(text))
 
 
-def evaluate(ctx, cases):
+def _evaluate(ctx, cases, _texts_for_compile):
     reqs, meta = [], []
     for c in cases:
         if c["kind"] == "inttext":
@@ -208,6 +208,8 @@ def evaluate(ctx, cases):
             if "where" in c:
                 ctx.count("position:" + c["where"])
             o = qeval.compile_outcome(text) if ctx.rng.random() < 0.5 else _explicit_env_compile(text)
+            if "ok" in o and len(_texts_for_compile) < 6000:
+                _texts_for_compile.append(text)
             ok = "ok" in o
             ctx.case(text, True, sample={"query": text, "rfc_well_typed": wt, "compiled": ok})
             ctx.count(f"tree:wt={wt}")
@@ -246,6 +248,18 @@ def evaluate(ctx, cases):
                 ctx.violation("leading zeros, empty or comma-terminated bracket lists must be rejected", c, "compiled", "JSONPathSyntaxError")
             if "err" in o and o.get("family") != "jsonpath":
                 ctx.violation("rejection must be a JSONPath error", c, o, "JSONPathError family")
+
+
+def evaluate(ctx, cases):
+    texts = []
+    try:
+        _evaluate(ctx, cases, texts)
+    finally:
+        # every accepted (well-typed) rendering: the composed lexer / decoding / parser model yields the query the implementation compiled
+        import jsonpath as _jp
+        from .. import lexcorr
+        if texts:
+            lexcorr.run_compile(ctx, _jp.DEFAULT_ENV, texts)
 
 
 def search(ctx):
